@@ -1084,6 +1084,20 @@ func (self *Node) deleteChild(path Path) Node {
 		if err != nil {
 			return errNode(meta.ErrRead, "", err)
 		}
+		// the raw bytes of a path are only comparable with the raw keys when the path is of the map's key kind
+		switch path.Type() {
+		case PathStrKey:
+			if kt != thrift.STRING {
+				return errNode(meta.ErrDismatchType, "map key must be string type", nil)
+			}
+		case PathIntKey:
+			if !kt.IsInt() {
+				return errNode(meta.ErrDismatchType, "map key must be integer type", nil)
+			}
+		case PathBinKey:
+		default:
+			return errNode(meta.ErrDismatchType, "", nil)
+		}
 		id := path.ToRaw(kt)
 		if id == nil {
 			return errNode(meta.ErrInvalidParam, "", nil)
